@@ -768,6 +768,34 @@ func labelN(l any) int {
 func validate(res *runResult, out *Output, run int, stats map[string]int) {
 	c := &checker{res: res, out: out, run: run}
 	p := res.plan
+	// ---- C10 "once the limit is reached, requests introducing a further combination are refused": a combination refused
+	// for the limit stays refused — a later request with the same combination (issued after the refusal had returned) must
+	// be refused too, not queued on a shard nobody serves, acknowledged, or left hanging
+	if len(p.Cfg.MetaKeys) > 0 && p.Cfg.MetaLimit > 0 {
+		refusedAt := map[string]int64{}
+		for _, rp := range p.Reqs {
+			if rp.returned && rp.err != nil && strings.Contains(rp.err.Error(), "too many batcher") {
+				k := comboKey(p.Cfg.MetaKeys, rp.Meta)
+				if e, ok := refusedAt[k]; !ok || rp.end < e {
+					refusedAt[k] = rp.end
+				}
+			}
+		}
+		for _, rp := range p.Reqs {
+			if rp.skipped || rp.start == 0 {
+				continue
+			}
+			e, ok := refusedAt[comboKey(p.Cfg.MetaKeys, rp.Meta)]
+			if !ok || rp.start <= e {
+				continue
+			}
+			if !rp.returned {
+				c.fail("C10", "refused-combination-later-accepted", fmt.Sprintf("request %d carries a metadata combination that had been refused for the cardinality limit (%d) before it was issued; it was not refused but never returned", rp.ID, p.Cfg.MetaLimit))
+			} else if rp.err == nil || !strings.Contains(rp.err.Error(), "too many batcher") {
+				c.fail("C10", "refused-combination-later-accepted", fmt.Sprintf("request %d carries a metadata combination that had been refused for the cardinality limit (%d) before it was issued; it was not refused (result: %v)", rp.ID, p.Cfg.MetaLimit, rp.err))
+			}
+		}
+	}
 	if res.hang != "" {
 		c.fail("C11", "hang", "processor hung (deadlock or lost wake-up): "+strings.SplitN(res.hang, "\n", 2)[0])
 		if p.Cfg.MaxConc == 0 && strings.Contains(res.hang, "callers did not return") {
@@ -776,6 +804,19 @@ func validate(res *runResult, out *Output, run int, stats map[string]int) {
 			c.fail("C09", "deadline-missed", fmt.Sprintf("accepted items were still not exported after 20 s (send_batch_size %d, timeout %d ms, no concurrency limit): %s",
 				p.Cfg.SendSize, p.Cfg.TimeoutMs, strings.SplitN(res.hang, "\n", 2)[0]))
 			c.fail("C06", "call-never-returned", "a Consume call with early_return off had not returned after 20 s although its context was alive and no export was outstanding")
+		}
+		// C18: callers whose own context is alive never returned in a run in which another caller's context had been
+		// cancelled — the cancelled caller (who stopped listening) decided the fate of theirs
+		cancelled, stuckAlive := 0, 0
+		for _, rp := range p.Reqs {
+			if rp.CancelUs >= 0 {
+				cancelled++
+			} else if !rp.returned && !rp.skipped && rp.start != 0 {
+				stuckAlive++
+			}
+		}
+		if cancelled > 0 && stuckAlive > 0 && !p.Cfg.Early {
+			c.fail("C18", "live-callers-stuck-after-foreign-cancel", fmt.Sprintf("%d Consume calls under live contexts never returned in a run where %d other requests had their contexts cancelled: %s", stuckAlive, cancelled, strings.SplitN(res.hang, "\n", 2)[0]))
 		}
 		return
 	}
@@ -837,6 +878,8 @@ func validate(res *runResult, out *Output, run int, stats map[string]int) {
 			}
 			if len(ws) == 0 {
 				c.fail("C05", "item-lost", fmt.Sprintf("item %d of accepted request %d was never exported (lost)", it.ID, rp.ID))
+				// the drain clause of C11: Shutdown has returned, and an item a shard had received had not been exported
+				c.fail("C11", "accepted-item-not-exported-at-shutdown", fmt.Sprintf("Shutdown returned although item %d of request %d, received by a shard, had not been exported", it.ID, rp.ID))
 				continue
 			}
 			if len(ws) > 1 {
@@ -1044,6 +1087,25 @@ func validate(res *runResult, out *Output, run int, stats map[string]int) {
 					c.fail("C09", "buffered-without-timer", fmt.Sprintf("no flush timer (send_batch_size %d, timeout %d ms) but %d items were still buffered in shard %d when it received its next request", p.Cfg.SendSize, p.Cfg.TimeoutMs, buffered[e.Shard], e.Shard))
 				}
 				buffered[e.Shard] += e.Num
+			case "send":
+				buffered[e.Shard] -= e.Num
+			}
+		}
+	}
+	// ---- C09 "as soon as the buffer reaches send_batch_size": with a timer, the loop sends while the buffer holds at least
+	// send_batch_size items before it takes its next event — on the event log, when a shard receives a request or handles a
+	// timer expiry, what it still holds from before is below send_batch_size
+	if p.Cfg.TimeoutMs > 0 && p.Cfg.SendSize > 0 {
+		buffered := map[int]int{}
+		for _, e := range res.log {
+			switch e.Kind {
+			case "recv", "timer":
+				if buffered[e.Shard] >= int(p.Cfg.SendSize) {
+					c.fail("C09", "full-buffer-not-flushed", fmt.Sprintf("send_batch_size %d (max %d) but shard %d still held %d items when it took its next event (%s)", p.Cfg.SendSize, p.Cfg.MaxSize, e.Shard, buffered[e.Shard], e.Kind))
+				}
+				if e.Kind == "recv" {
+					buffered[e.Shard] += e.Num
+				}
 			case "send":
 				buffered[e.Shard] -= e.Num
 			}
